@@ -5,6 +5,7 @@ package main
 
 import (
 	"fmt"
+	"unsafe"
 	"go/types"
 	"math"
 	"regexp"
@@ -333,6 +334,15 @@ func init() {
 		},
 		"strings.Compare": func(fr *frame, a []value) value {
 			return fr.i.seqCompare(strBytes(a[0]), strBytes(a[1]))
+		},
+		"slices.overlaps": func(fr *frame, a []value) value {
+			x, y := a[0].([]value), a[1].([]value)
+			if len(x) == 0 || len(y) == 0 {
+				return false
+			}
+			x0, x1 := uintptr(unsafe.Pointer(&x[0])), uintptr(unsafe.Pointer(&x[len(x)-1]))
+			y0, y1 := uintptr(unsafe.Pointer(&y[0])), uintptr(unsafe.Pointer(&y[len(y)-1]))
+			return x0 <= y1 && y0 <= x1
 		},
 		"internal/abi.NoEscape":        func(fr *frame, a []value) value { return a[0] },
 		"internal/abi.Escape":          func(fr *frame, a []value) value { return a[0] },
